@@ -535,6 +535,21 @@ impl C10 {
         if let Some(layout) = i.strip_prefix("ok ") {
             // S on the real layout, computed by Lean
             let (_, layout) = layout.split_once(' ').unwrap();
+            // the writer side of the size table: real `SubFileSizes -> [u8; 24]` vs `headerBytes`,
+            // and both must reproduce the 24 bytes that were read
+            let ws: Vec<i64> = layout.split(' ').take(12).map(|x| x.parse().unwrap()).collect();
+            let sfs = tfm::SubFileSizes {
+                lf: ws[0] as i16, lh: ws[1] as i16, bc: ws[2] as i16, ec: ws[3] as i16, nw: ws[4] as i16, nh: ws[5] as i16,
+                nd: ws[6] as i16, ni: ws[7] as i16, nl: ws[8] as i16, nk: ws[9] as i16, ne: ws[10] as i16, np: ws[11] as i16,
+            };
+            let real_hb: [u8; 24] = sfs.into();
+            let model_hb = drv.ask(&format!("hb {}", join(&ws)));
+            if join(&real_hb) != model_hb {
+                out.fail(Kind::ImplVsModel, &format!("{stage}raw"), "SubFileSizes::into differs from headerBytes", format!("impl: {}\nmodel: {model_hb}", join(&real_hb)));
+            }
+            if real_hb[..] != bytes[..24] {
+                out.fail(Kind::ImplVsSpec, &format!("{stage}raw"), "size table does not round-trip through SubFileSizes", format!("read {} wrote {}", hex(&bytes[..24]), hex(&real_hb)));
+            }
             let verdict = drv.ask(&format!("chk {} {}", bytes.len(), layout));
             if verdict != "1" {
                 out.fail(
@@ -619,6 +634,8 @@ impl C10 {
         }
         // tags
         let post: BTreeMap<u8, &tfm::CharTag> = c.post_tags.iter().map(|(c, t)| (*c, t)).collect();
+        let mut reqs = vec![];
+        let mut items = vec![];
         for (ch, tag) in &c.pre_tags {
             // tags of characters that have no dimensions are not visited by the clamp loop
             if !c.post_chars.contains(ch) {
@@ -629,7 +646,11 @@ impl C10 {
                 tfm::CharTag::List(n) => ("list", n.0 as usize, c.post_chars.contains(&n.0)),
                 tfm::CharTag::Extension(e) => ("ext", *e as usize, true),
             };
-            let m = drv.ask(&format!("tag {} {} {kind} {value} {}", c.nl, c.ne, exists as u8));
+            reqs.push(format!("tag {} {} {kind} {value} {}", c.nl, c.ne, exists as u8));
+            items.push((ch, tag, kind));
+        }
+        let replies = if reqs.is_empty() { vec![] } else { drv.ask_many(&reqs) };
+        for ((ch, tag, kind), m) in items.into_iter().zip(replies) {
             let kept = post.contains_key(ch);
             out.tag(format!("{stage}clamp:tag-{kind}-{}", if kept { "kept" } else { "dropped" }));
             if m == "drop" && kept {
@@ -903,7 +924,7 @@ impl Property for C10 {
     }
     fn rule(&self) -> String {
         "hs/h: every value of each of the twelve header words (all 2^16 in thorough; stride 64 plus 48 consecutive values at 0, 232, 32744 and 65488 in quick; one hs case = one sweep of up to 256 values, the number of values is in extra.header_word_values_evaluated_in_hs_sweeps) against five base files \
-         (16-byte, 24-byte, minimal consistent 48-byte, a 72-byte consistent file with junk, a 131 068-byte file with lf=32767: stride 8 there except lf and nw), hc: every word of two consistent tables swept with lf and the file length following (0..192 dense in quick, 0..1024 in thorough, sparse to 2^16); then random consistent size tables with random bodies and random 1-3-word damage; \
+         (16-byte, 24-byte, minimal consistent 48-byte, a 72-byte consistent file with junk, a 131 068-byte file with lf=32767: stride 8 there except lf and nw), hc: every word of two consistent tables swept with lf and the file length following (0..128 dense in quick, 0..1024 in thorough, sparse to 2^16); then random consistent size tables with random bodies and random 1-3-word damage; \
          t: every corpus .tfm under crates/tfm*/ — all truncation lengths that are multiples of 4 around every sub-file boundary plus random ones, random single-byte and header-word mutations; \
          p: every corpus .plst/.pl — random token mutations (paren deletion/insertion, out-of-range and huge numbers, keyword swaps, undeclared characters in labels, cuts, deep nesting, repeats); \
          pt: random small property lists from the grammar with deliberate violations. Every tftopl output is fed to pltotf and every pltotf output to the reader and tftopl. \
@@ -1000,7 +1021,7 @@ impl Property for C10 {
         for (fill, words) in [(0u64, [12i64, 2, 1, 0, 1, 1, 1, 1, 0, 0, 0, 0]), (11, [26, 3, 65, 70, 3, 2, 2, 2, 2, 1, 1, 1])] {
             let hexbase = hex(&header_from(&words));
             for w in 1..12 {
-                let top = if th { 1024 } else { 192 };
+                let top = if th { 1024 } else { 128 };
                 let mut start = 0;
                 while start < top {
                     v.push(format!("hc 24 {fill} {hexbase} {w} {start} 64 1"));
